@@ -2,7 +2,7 @@ SPECIFICATION Spec
 CONSTANTS
   HashOf <- mcHash
   KLenOf <- mcKLen
-  KeySet <- mcKeys4
+  KeySet <- mcKeys3
   TimeSet = {1}
   VLens = {0, 4}
   MaxOff = 5
